@@ -309,7 +309,9 @@ class EarleyParser(Parser):
 
     def parse(self, text) -> Generator:
         cursor, states = self.parse_prefix(text)
-        start = next((s for s in states if s.finished()), None)
+        start = next(
+            (s for s in states if s.finished() and s.s_col.index == 0), None
+        )
 
         if cursor < len(text) or not start:
             raise SyntaxError("at " + repr(text[cursor:]))
@@ -383,7 +385,9 @@ class SimpleExtractor:
     def __init__(self, parser, text):
         self.parser = parser
         cursor, states = parser.parse_prefix(text)
-        start = next((s for s in states if s.finished()), None)
+        start = next(
+            (s for s in states if s.finished() and s.s_col.index == 0), None
+        )
         if cursor < len(text) or not start:
             raise SyntaxError("at " + repr(cursor))
         self.my_forest = parser.parse_forest(parser.table, start)
